@@ -677,3 +677,9 @@ REQUIRED_THEOREMS = REQUIRED_THEOREMS + ['Cv.C01Solve.ar_fit_yule_walker_uncondi
 _np = list(NOT_PROVED)
 _np = [('exactness of invert_matrix is no longer a hypothesis: Props/C01SolveApps proves the Yule-Walker equations of the fitted coefficients unconditionally for a non-singular Toeplitz matrix (exact arithmetic)' if 'invert_matrix' in str(x) else x) for x in _np]
 NOT_PROVED = [x for x in _np if x is not None]
+
+# --- deep theorems (C13Conv)
+PROOF_MODULES = PROOF_MODULES + ['Compute.Props.C13Conv']
+REQUIRED_THEOREMS = REQUIRED_THEOREMS + ['Cv.C13C.predict_prefix', 'Cv.C13C.forecast_abs_le', 'Cv.C13C.predict_abs_le', 'Cv.C13C.forecast_tendsto', 'Cv.C13C.forecast_eventually', 'Cv.C13C.fit_forecast_tendsto', 'Cv.C13C.forecast_tendsto_of_spectralRadius_lt_one', 'Cv.C13C.forecast_tendsto_of_ar_roots']
+NOT_PROVED = [x for x in NOT_PROVED if not any(k in str(x) for k in ('convergence of the forecasts',))]
+NOT_PROVED = NOT_PROVED + ["that a Yule-Walker fit always yields a stationary model (not true in general for the biased estimator with this inverse route: searched by the oracle); convergence of the forecasts to the mean IS proved whenever sum|phi_j| < 1 (geometric bound c^ceil(h/p)) and, via Gelfand's formula on the companion matrix, whenever all roots of z^p - phi_1 z^(p-1) - ... - phi_p lie inside the unit disc (Props/C13Conv)"]
